@@ -22,6 +22,16 @@ AfterDumpOK(f, v, nd) ==
           IF j < MaxBackups /\ j < nd - 1 THEN f[j] = File(v - 1 - j, TRUE)
                                            ELSE f[j] = Absent
 
+\* after dump number v completed in a folder that has seen a crash (files of the interrupted dump may be there): the
+\* newest state is in the main file, no file beyond the configured number exists, and the complete backups are kept
+\* newest-first (all older than v)
+AfterRecoveredDumpOK(f, v) ==
+    /\ f[-1] = File(v, TRUE)
+    /\ f[MaxBackups] = Absent
+    /\ \A j, k \in 0 .. MaxBackups :
+          (j < k /\ f[j].complete /\ f[k].complete) => f[j].ver > f[k].ver
+    /\ \A j \in 0 .. MaxBackups : f[j].complete => f[j].ver < v
+
 \* after a crash inside a dump that began when version pg was the newest
 \* complete dump
 CrashSafeOK(f, pg) ==
